@@ -26,11 +26,13 @@ func runC09(a *A) {
 			if gi, ok := in.(*ssa.Go); ok {
 				if mc, ok := gi.Call.Value.(*ssa.MakeClosure); ok {
 					g = mc.Fn.(*ssa.Function)
+				} else if sc := gi.Call.StaticCallee(); sc != nil && sc.Blocks != nil && a.fnInModule(sc) {
+					g = sc // `go cw.run()`: the goroutine body is a method
 				}
 			}
 		})
 		if g == nil {
-			a.anchorFail("CountingWindow.Start does not start a goroutine closure")
+			a.anchorFail("CountingWindow.Start does not start a goroutine (closure or method of the module)")
 		}
 		return g
 	}
@@ -76,6 +78,20 @@ func runC09(a *A) {
 			t := TermOf(mu.Value, nil)
 			ok2 := t.Kind == "len" && (t.Base.Kind == "call" && t.Base.Name == "append" && len(t.Base.Args) > 0 && t.Base.Args[0].Kind == "index" && isFieldOf(t.Base.Args[0].Base, "window.CountingWindow", "keyedBuffer") ||
 				t.Base.Kind == "index" && isFieldOf(t.Base.Base, "window.CountingWindow", "keyedBuffer"))
+			if !ok2 {
+				// len(x) where this very x is what is stored as the key's buffer next to it
+				if lc, isCall := mu.Value.(*ssa.Call); isCall {
+					if cc, isLen := isBuiltinCall(lc, "len"); isLen {
+						for _, other := range mu.Block().Instrs {
+							if bu, isMU := other.(*ssa.MapUpdate); isMU && bu.Value == cc.Args[0] &&
+								isFieldOf(TermOf(bu.Map, nil), "window.CountingWindow", "keyedBuffer") &&
+								TermOf(bu.Key, nil).String() == TermOf(mu.Key, nil).String() {
+								ok2 = true
+							}
+						}
+					}
+				}
+			}
 			n++
 			a.Check(ok2, fname(g)+"#count-is-len", in.Pos(), "keyedCount[key] = "+t.String(), "keyedCount[key] is set to "+t.String()+", not to the length of the key's buffer")
 		})
@@ -192,7 +208,7 @@ func runC09(a *A) {
 	})
 	a.Rule("keyenc/counting", 1, func() { a.keyencRule("window", "CountingWindow", "getKey", keyencOpts{}) })
 	a.Rule("aggstate/reset", 2, func() { a.ruleAggregatorReset() })
-	a.Rule("fnsafe/alloc-bounded-by-data", 3, func() { a.ruleAllocBoundedByData() })
+	a.Rule("fnsafe/alloc-bounded-by-data", 1, func() { a.ruleAllocBoundedByData() })
 	a.Rule("flow/evicted-result-counted", 1, func() { a.ruleEvictedResultCounted(a.Named("window", "CountingWindow")) })
 	a.Rule("whomay/consumers", 3, func() {
 		w := W()
@@ -233,14 +249,9 @@ func runC09(a *A) {
 		allInstrs(g, func(in ssa.Instruction) {
 			if isCallNamed(in, "time", "NewTicker") {
 				n++
-				ok := false
-				for _, gd := range guardsOf(in.Block()) {
-					if bo, isB := gd.Cond.(*ssa.BinOp); isB && gd.Sense && bo.Op == token.GTR && isFieldOf(TermOf(bo.X, nil), "window.CountingWindow", "countStateTTL") {
-						if c, isC := bo.Y.(*ssa.Const); isC && c.Int64() == 0 {
-							ok = true
-						}
-					}
-				}
+				ok := knownPositive(in.Block(), func(v ssa.Value) bool {
+					return isFieldOf(TermOf(v, nil), "window.CountingWindow", "countStateTTL")
+				})
 				a.Check(ok, fname(g)+"#reaper-ticker", in.Pos(), "the reaper ticker exists only when countStateTTL > 0", "the idle-key reaper ticker is created without the countStateTTL > 0 guard: keys would be reaped when STATETTL is not set")
 			}
 		})
